@@ -13,7 +13,7 @@
    Refuted (witnesses in ProofsC07Ex.v): F7a empty newest file, F7b compaction twin, F7c update glued to a torn tail. *)
 From Coq Require Import List String Ascii Bool Arith ZArith Lia Permutation.
 Import ListNotations.
-From BD.Hist Require Import Model SModel Spec ProofsLib ProofsStore ProofsRefine.
+From BD.Hist Require Import Model SModel Spec ProofsLib ProofsStore ProofsRefine ProofsCache.
 Open Scope string_scope.
 Open Scope list_scope.
 
@@ -326,8 +326,69 @@ Proof.
     + intros e Ie. eapply Permutation_in in Ie; [|exact PM2]. destruct Ie as [Ie|[Ie|[]]]; subst e; simpl; auto.
 Qed.
 
+(* a file that holds no parseable status is invisible to latest / recent (since 3aa388e the readers skip it) *)
+Lemma load_pure_extra s kx fx k : ~ In kx (keys s) ->
+  load_pure {| sdirs := sdirs s; sfiles := sfiles s ++ [(kx, fx)] |} k = if skey_eqb kx k then parse fx else load_pure s k.
+Proof.
+  intros N. unfold load_pure. rewrite !sget_lget. cbn [sfiles]. rewrite lget_app. rewrite <- sget_lget.
+  destruct (skey_eqb kx k) eqn:E.
+  - apply skey_eqb_eq in E. subst k. rewrite (proj2 (sget_none s kx) N). unfold lget. simpl. rewrite skey_eqb_refl. reflexivity.
+  - destruct (sget s k); auto. unfold lget. simpl. rewrite (skey_eqb_sym k kx), E. reflexivity.
+Qed.
+
+Lemma invisible_loads s kx fx d pk : ~ In kx (keys s) -> parse fx = None ->
+  let s' := {| sdirs := sdirs s; sfiles := sfiles s ++ [(kx, fx)] |} in
+  loads s' (sort_desc sts_of (sglob kname s' d pk)) = loads s (sort_desc sts_of (sglob kname s d pk)).
+Proof.
+  intros N Pf s'. set (NX := fun e : sent => negb (skey_eqb kx (fst e))).
+  assert (LC : forall st e l, loads st (e :: l) = opt_list (load_pure st (fst e)) ++ loads st l) by reflexivity.
+  assert (L1 : forall l, loads s' l = loads s (filter NX l)).
+  { induction l as [|e l IH]; [reflexivity|]. rewrite LC. cbn [filter]. unfold s' at 1. rewrite load_pure_extra by auto. unfold NX at 1.
+    destruct (skey_eqb kx (fst e)); cbn [negb]; rewrite IH; [rewrite Pf; reflexivity | rewrite LC; reflexivity]. }
+  rewrite L1, sort_desc_filter. f_equal. f_equal.
+  set (PK := fun e : sent => in_patk pk (fst e)). set (DG := fun e : sent => String.eqb (k_dag (fst e)) d).
+  assert (GE : forall st, sglob kname st d pk = if shas_dir st d then filter PK (isort (klt (fun e : sent => kname (fst e))) (filter DG (sfiles st))) else [])
+    by reflexivity.
+  rewrite (GE s'), (GE s). change (shas_dir s' d) with (shas_dir s d). destruct (shas_dir s d); auto.
+  rewrite filter_filter. rewrite (filter_ext (fun x : sent => PK x && NX x) (fun x : sent => NX x && PK x)) by (intros x; apply andb_comm).
+  rewrite <- filter_filter. f_equal.
+  rewrite isort_filter. f_equal.
+  unfold s'. cbn [sfiles]. rewrite filter_filter, filter_app.
+  assert (X1 : filter (fun x : sent => DG x && NX x) [(kx, fx)] = []).
+  { simpl. unfold NX. simpl. rewrite skey_eqb_refl, andb_false_r. reflexivity. }
+  rewrite X1, app_nil_r.
+  apply filter_ext_in'. intros e Ie. unfold NX.
+  assert (X : skey_eqb kx (fst e) = false). { apply skey_eqb_neq. intro X. apply N. rewrite X. unfold keys. apply in_map. auto. }
+  rewrite X. apply andb_true_r.
+Qed.
+
+Lemma invisible_answers s kx fx H : ~ In kx (keys s) -> parse fx = None -> shas_dir s (k_dag kx) = true ->
+  (forall d req, fres_payload (sq_find kname kpath {| sdirs := sdirs s; sfiles := sfiles s ++ [(kx, fx)] |} d req) = sp_find H d req) ->
+  answers_as s H -> answers_as {| sdirs := sdirs s; sfiles := sfiles s ++ [(kx, fx)] |} H.
+Proof.
+  intros N Pf Dd FQ A d. destruct (A d) as [A1 [A2 A3]]. split; [|split].
+  - intros req. apply FQ.
+  - intros day. rewrite <- A2. unfold sq_latest, slatest_of.
+    pose proof (invisible_loads s kx fx d (PLatest day) N Pf) as IL. simpl in IL.
+    set (s' := {| sdirs := sdirs s; sfiles := sfiles s ++ [(kx, fx)] |}) in *.
+    assert (E1 : forall st l, snd (match l with [] => ([], LNoData) | _ :: _ => sload_first [] st (sfilter_latest l (List.length l)) end)
+                 = match loads st (sort_desc sts_of l) with [] => LNoData | p :: _ => LOk p end).
+    { intros st l. destruct l as [|e0 l0]; [reflexivity|]. rewrite sfilter_latest_all.
+      apply (sload_first_sound st (sort_desc sts_of (e0 :: l0)) [] (cache_sound_nil st)). }
+    rewrite (E1 s'), (E1 s), IL. reflexivity.
+  - intros n. rewrite <- A3. unfold sq_recent, srecent_of.
+    pose proof (invisible_loads s kx fx d PAll N Pf) as IL. simpl in IL.
+    set (s' := {| sdirs := sdirs s; sfiles := sfiles s ++ [(kx, fx)] |}) in *.
+    assert (E1 : forall st l, snd (match l with [] => ([], []) | _ :: _ => sload_upto [] st (sfilter_latest l (List.length l)) n end)
+                 = firstn n (loads st (sort_desc sts_of l))).
+    { intros st l. destruct l as [|e0 l0]; [simpl; rewrite firstn_nil; reflexivity|]. rewrite sfilter_latest_all.
+      apply (sload_upto_sound st (sort_desc sts_of (e0 :: l0)) n [] (cache_sound_nil st)). }
+    rewrite (E1 s'), (E1 s), IL. reflexivity.
+Qed.
+
+(* the window that remains (F7b): the compacted twin PARSES (its status line is complete) and the original is not yet unlinked *)
 Definition twin_window (h : sstate) (s' : sfs) : Prop :=
-  exists w fx, swr h = Some w /\ sdirs s' = sdirs (sst h) /\ sfiles s' = sfiles (sst h) ++ [(twin (sw_key w), fx)].
+  exists w fx, swr h = Some w /\ sdirs s' = sdirs (sst h) /\ sfiles s' = sfiles (sst h) ++ [(twin (sw_key w), fx)] /\ parse fx <> None.
 
 Lemma close_find_same H now d req : sp_find (sp_apply H (OClose now)) d req = sp_find H d req.
 Proof.
@@ -372,10 +433,13 @@ Proof.
   set (sc := {| sdirs := sdirs (sst h); sfiles := sfiles (sst h) ++ [(kc, empty_file now)] |}).
   assert (WIN : forall fx, (parse fx = None \/ parse fx = Some pl) ->
             let x := {| sdirs := sdirs (sst h); sfiles := sfiles (sst h) ++ [(kc, fx)] |} in
-            (forall d req, fres_payload (sq_find kname kpath x d req) = sp_find H d req) /\ twin_window h x).
-  { intros fx Pf x. split.
-    - intros d req. unfold x. rewrite (find_extra h H L kc fx e0 a0 pl d req); auto. { apply PRE. } rewrite E1. reflexivity.
-    - exists w, fx. rewrite EW. repeat split; auto. }
+            (forall d req, fres_payload (sq_find kname kpath x d req) = sp_find H d req) /\ (twin_window h x \/ answers_as x H)).
+  { intros fx Pf x.
+    assert (FQ : forall d req, fres_payload (sq_find kname kpath x d req) = sp_find H d req).
+    { intros d req. unfold x. rewrite (find_extra h H L kc fx e0 a0 pl d req); auto. { apply PRE. } rewrite E1. reflexivity. }
+    split; auto. destruct (parse fx) as [pf|] eqn:Ef.
+    - left. exists w, fx. rewrite EW. repeat split; auto. rewrite Ef. discriminate.
+    - right. apply invisible_answers; auto. apply PRE. }
   change (SMkdir (k_dag k) :: SCreate kc now :: map (fun c : chunk => SAppend kc c now) (chunks_of pl) ++ [SUnlink k])
     with ([SMkdir (k_dag kc); SCreate kc now] ++ (map (fun c : chunk => SAppend kc c now) (chunks_of pl) ++ [SUnlink k])) in IN.
   apply scrash_app_in in IN. destruct IN as [IN|IN].
@@ -386,7 +450,7 @@ Proof.
     destruct IN as [X|[X|[X|[]]]]; subst s'.
     + split; [apply PRE|]. right. left. apply PRE.
     + split; [apply PRE|]. right. left. apply PRE.
-    + destruct (WIN (empty_file now)) as [A B]; auto.
+    + destruct (WIN (empty_file now)) as [A [B|B]]; auto.
   - assert (RS : run_sprims (sst h) [SMkdir (k_dag kc); SCreate kc now] = sc).
     { unfold run_sprims. cbn [fold_left]. rewrite (mkdir_noop _ _ Dk), (create_fresh _ kc now Nkc). reflexivity. }
     rewrite RS in IN.
@@ -394,12 +458,12 @@ Proof.
     { intros g. unfold sc. cbn [sfiles]. rewrite upd_key_app, (upd_key_absent kc g (sfiles (sst h))) by exact Nkc. rewrite upd_key_single. reflexivity. }
     apply scrash_app_in in IN. destruct IN as [IN|IN].
     + apply crash_appends in IN. destruct IN as [g [Es AP]]. subst s'. rewrite UK. cbn [sdirs sc].
-      destruct (AP (empty_file now) eq_refl) as [PA|PA]; destruct (WIN (g (empty_file now))) as [A B]; auto.
+      destruct (AP (empty_file now) eq_refl) as [PA|PA]; destruct (WIN (g (empty_file now))) as [A [B|B]]; auto.
     + rewrite run_appends in IN. rewrite UK in IN. rewrite appends_status in IN by reflexivity. cbn [sdirs sc items empty_file app] in IN.
       set (sfull := {| sdirs := sdirs (sst h); sfiles := sfiles (sst h) ++ [(kc, {| items := [Rec pl]; ftail := TNone; mtime := now |})] |}) in *.
       assert (CL : scrash_from sfull [SUnlink k] = [sfull; run_sprim sfull (SUnlink k)]) by reflexivity.
       rewrite CL in IN. destruct IN as [X|[X|[]]]; subst s'.
-      * destruct (WIN {| items := [Rec pl]; ftail := TNone; mtime := now |}) as [A B]; auto.
+      * destruct (WIN {| items := [Rec pl]; ftail := TNone; mtime := now |}) as [A [B|B]]; auto.
       * assert (PS : sst (sapply kname kpath h (OClose now)) = run_sprim sfull (SUnlink k)).
         { unfold sapply. cbn [sprims sst]. rewrite EW. cbn [sst]. fold k. rewrite G0, Pp. fold kc.
           change ([SMkdir (k_dag kc); SCreate kc now] ++ map (fun c : chunk => SAppend kc c now) (chunks_of pl) ++ [SUnlink k])
